@@ -486,7 +486,8 @@ impl ItemizedBlock {
     /// Returns `None` if `line` doesn't start an item.
     fn new(line: &str) -> Option<ItemizedBlock> {
         let marker_length = ItemizedBlock::get_marker_length(line.trim_start())?;
-        let space_to_marker = line.chars().take_while(|c| c.is_whitespace()).count();
+        // `indent` is used as a byte offset into `line` below.
+        let space_to_marker = line.len() - line.trim_start().len();
         let mut indent = space_to_marker + marker_length;
         let mut line_start = " ".repeat(indent);
 
